@@ -26,6 +26,11 @@ type params struct {
 	NMsgs   int   `json:"n_msgs"`   // messages in the block
 	Modem   bool  `json:"modem"`    // transport reports a transmit-buffer length and can Flush
 	Rep     int   `json:"rep"`
+	// TxDelayMS: latency of the modem's TxBufferLen query; UpdDelayMS: time the application's
+	// StatusUpdater takes per report (e.g. a UI redraw). Both keep the reporting goroutine busy, so
+	// that transfers end while a periodic report is being produced.
+	TxDelayMS  int `json:"tx_delay_ms,omitempty"`
+	UpdDelayMS int `json:"upd_delay_ms,omitempty"`
 }
 
 var Check = &vrt.Check{
@@ -51,12 +56,15 @@ func plan(seed int64, tier string) []vrt.Case {
 	type sc struct {
 		delay, size, n int
 		modem          bool
+		tx, upd        int
 	}
 	base := []sc{
-		{0, 200, 1, false}, {0, 60000, 3, false}, {0, 6000, 2, true},
-		{1, 60000, 1, false}, {1, 60000, 2, true},
-		{50, 1500, 1, false}, {50, 3000, 2, false}, {50, 1500, 1, true}, {50, 6000, 3, true},
-		{300, 400, 1, false}, {300, 300, 2, true}, {300, 600, 1, true},
+		{0, 200, 1, false, 0, 0}, {0, 60000, 3, false, 0, 0}, {0, 6000, 2, true, 0, 0},
+		{1, 60000, 1, false, 0, 0}, {1, 60000, 2, true, 0, 0},
+		{50, 1500, 1, false, 0, 0}, {50, 3000, 2, false, 0, 0}, {50, 1500, 1, true, 0, 0}, {50, 6000, 3, true, 0, 0},
+		{300, 400, 1, false, 0, 0}, {300, 300, 2, true, 0, 0}, {300, 600, 1, true, 0, 0},
+		// slow modem query / slow updater: the end of a transfer falls into a periodic report
+		{50, 2600, 3, true, 120, 0}, {50, 2900, 3, false, 0, 120}, {50, 3300, 3, true, 90, 60}, {300, 500, 3, true, 150, 0},
 	}
 	reps := 2
 	if tier == "thorough" {
@@ -75,13 +83,13 @@ func plan(seed int64, tier string) []vrt.Case {
 			default:
 				size = 300 + r.Intn(500)
 			}
-			base = append(base, sc{d, size, 1 + r.Intn(3), r.Intn(2) == 0})
+			base = append(base, sc{d, size, 1 + r.Intn(3), r.Intn(2) == 0, []int{0, 0, 100, 160}[r.Intn(4)], []int{0, 0, 0, 90}[r.Intn(4)]})
 		}
 	}
 	var cs []vrt.Case
 	for i, s := range base {
 		for rep := 0; rep < reps; rep++ {
-			cs = append(cs, vrt.Case{ID: fmt.Sprintf("s%d-r%d", i, rep), Params: vrt.MustParams(params{Seed: seed, Index: i, DelayMS: s.delay, Size: s.size, NMsgs: s.n, Modem: s.modem, Rep: rep}), TimeoutS: 600})
+			cs = append(cs, vrt.Case{ID: fmt.Sprintf("s%d-r%d", i, rep), Params: vrt.MustParams(params{Seed: seed, Index: i, DelayMS: s.delay, Size: s.size, NMsgs: s.n, Modem: s.modem, Rep: rep, TxDelayMS: s.tx, UpdDelayMS: s.upd}), TimeoutS: 600})
 		}
 	}
 	return cs
@@ -89,11 +97,15 @@ func plan(seed int64, tier string) []vrt.Case {
 
 // recorder is a thread-safe StatusUpdater.
 type recorder struct {
-	mu  sync.Mutex
-	log []fbb.Status
+	mu    sync.Mutex
+	log   []fbb.Status
+	delay time.Duration
 }
 
 func (r *recorder) UpdateStatus(s fbb.Status) {
+	if r.delay > 0 && !s.Done {
+		time.Sleep(r.delay) // a slow consumer of periodic reports (the report is logged when it completes)
+	}
 	r.mu.Lock()
 	r.log = append(r.log, s)
 	r.mu.Unlock()
@@ -133,8 +145,8 @@ func run(c vrt.Case) vrt.Obs {
 		return m, err
 	}
 	for i := 0; i < p.NMsgs; i++ {
-		size := p.Size
-		if i > 0 {
+		size := p.Size + rng.Intn(1+p.Size/8) // jitter: the end of the transfer falls at varying phases of the 250 ms tick
+		if i > 0 && p.TxDelayMS+p.UpdDelayMS == 0 {
 			size = 50 + p.Size/4
 		}
 		m, err := mk(fmt.Sprintf("A%d", i), b2fx.CallA, b2fx.CallB, size)
@@ -155,7 +167,8 @@ func run(c vrt.Case) vrt.Obs {
 	lg := &mem.Log{}
 	a, b := sc.Stations(lg)
 	sa, sb := sc.Sides(a, b)
-	ra, rb := &recorder{}, &recorder{}
+	ra, rb := &recorder{delay: time.Duration(p.UpdDelayMS) * time.Millisecond}, &recorder{delay: time.Duration(p.UpdDelayMS) * time.Millisecond}
+	sa.ModemTxDelay, sb.ModemTxDelay = time.Duration(p.TxDelayMS)*time.Millisecond, time.Duration(p.TxDelayMS)*time.Millisecond
 	sa.Status, sb.Status = ra, rb
 	sa.Modem, sb.Modem = p.Modem, p.Modem
 	var pl vpipe.Plan
@@ -173,7 +186,8 @@ func run(c vrt.Case) vrt.Obs {
 	for (ra.dones() < wantA || rb.dones() < wantB) && time.Now().Before(deadline) {
 		time.Sleep(20 * time.Millisecond)
 	}
-	time.Sleep(300 * time.Millisecond) // let stragglers (a duplicate Done would be a violation) arrive
+	// let stragglers arrive (a report after Done or a duplicate Done would be a violation)
+	time.Sleep(300*time.Millisecond + 3*time.Duration(p.UpdDelayMS+p.TxDelayMS)*time.Millisecond)
 	csize := map[string]int{}
 	for _, e := range lg.Events() {
 		if e.Kind == mem.EvGetInboundAns {
